@@ -72,7 +72,8 @@ Section Data.
   Definition all_alts (s : state) : list alt := st_cons s ++ st_notcons s.
 
   (** ** Bias properties: every field any bias decodes from its props (defaults applied by the
-      decoder are written into the case by the driver and are part of the correspondence). *)
+      decoder are written into the case by the driver and are part of the correspondence).
+      For anchoring the bounding, reference-criterion and seed fields are those of applier.params. *)
   Record anchor_alt := { aa_id : string; aa_coef : num }.
   Record fparams := { fp_name : string; fp_a : num; fp_b : num; fp_alpha : num; fp_mult : num }.
   Record bprops := {
@@ -88,7 +89,7 @@ Section Data.
     bp_anch_loss : fparams; bp_anch_gain : fparams;
     bp_anch_ref : string;             (* referencePoints function *)
     bp_anch_applier : string;         (* applier function *)
-    bp_anch_unlimited : bool;         (* applier params: applyOnNotConsidered *)
+    bp_anch_not_considered : bool;    (* applier params: applyOnNotConsidered *)
   }.
   Record biasreq := { b_name : string; b_disabled : bool; b_prob : num; b_props : bprops }.
 
@@ -126,7 +127,7 @@ Section Data.
   Definition draw (g : rng) : res (num * rng) :=
     match g with [] => Err EOutOfRandom | x :: r => Ok (x, r) end.
   Fixpoint lookup_num (k : num) (l : list (num * num)) : option num :=
-    match l with [] => None | (k', v) :: r => if nsame k k' then Some v else lookup_num k r end.
+    match l with [] => None | (k', v) :: r => if neqb k k' then Some v else lookup_num k r end.
   Definition exp_oracle (e : env) (x : num) : res num := of_option (lookup_num x (env_exp e)) EOutOfOracle.
 
   (** ** Equality tests used to compare observed with computed data *)
